@@ -634,10 +634,24 @@ def has_filled_container(init):
 def proj_C18(lhs, o, t):
     if lhs[0] != "A": return ()
     return (o.get("res"), o.get("after"), o.get("p"), o.get("a2"), o.get("p2"))
+def oracle_assign_need(lhs, o, om):
+    """`C03_assign_reads_back`, checked on the implementation: assign_in_place on a valid target succeeds iff the content is
+    representable and its specified size is at most as_bytes().len() of the target; then size() is the specified size"""
+    need, v0 = need_of(om), (om or {}).get("v0")
+    if need == "absent" or v0 in (None, "?") or o["cls"] not in ("ok", "err"): return None
+    fits = need is not None and need <= int(v0)
+    if o["cls"] == "ok" and not fits: return f"assign_in_place succeeded on a value of {v0} bytes, the new content needs {need if need is not None else 'more than the length type can express'}"
+    if o["cls"] == "err" and fits: return f"assign_in_place was refused with {o['res']} on a value of {v0} bytes, the new content needs {need}"
+    if o["cls"] == "ok":
+        p = probe_fields(o.get("p"))
+        if p and p["ok"] and p["z"] != need: return f"size() after assign_in_place is {p['z']}, the specified content occupies {need}"
+    return None
 def oracle_C18(lhs, o, t, om):
     if lhs[0] != "A": return None
     if o["cls"] in ("PANIC", "MEMFAULT"): return f"assign_in_place ended with {o['cls']}"
     if o["cls"] == "notvalid": return None   # the harness's own precondition failed (reported by C03/C05 suites)
+    w = oracle_assign_need(lhs, o, om)
+    if w: return w
     p = probe_fields(o.get("p"))
     if o["cls"] == "err":
         if p is None or not p["ok"]:
